@@ -67,8 +67,21 @@ def body(case):
     out.nontrivial = fired or len(schema.rules) >= 2
     out.label(f"rules:{len(schema.rules)}", "cast-fires" if fired else "no-cast-fires")
     out.sample = show(schema, 500)
+    def refused(sobj):
+        for r_ in sobj.rules:
+            try:
+                r_.path.to_part_specs()
+            except Exception:
+                return True
+        return False
+
     try:
         S = build.build_schema(schema)
+        if refused(S):
+            # paths the library refuses to serialise are outside the property's fragment (C12 allows refusal)
+            out.label("path-serialisation-refused-skipped")
+            out.nontrivial = False
+            return out
         if extra is not None:
             T, root, prime = extra
             if prime:
@@ -81,6 +94,10 @@ def body(case):
             out.label("after-add_schema", "primed" if prime else "unprimed")
     except Exception as e:
         out.exc("build", e)
+        return out
+    if refused(S):
+        out.label("path-serialisation-refused-skipped")
+        out.nontrivial = False
         return out
     try:
         js = S.to_json_like()
